@@ -53,6 +53,9 @@ def _lines(names, thorough):
     out = []
     for h in heads:
         out += [(h,), (h, "u1"), (h, "u1", "u2"), (DEC2, h, "u1")]
+        # what the user typed reaches the command literally: the parser has already done the user's
+        # expansions, an alias hop must not expand these words again
+        out += [(h, "~", "k=~", "$XVC15", "*")]
         if thorough:
             out += [(DEC2, DEC1, h), (h, names[-1])]
     return out
@@ -61,7 +64,7 @@ def _lines(names, thorough):
 # ---------------------------------------------------------------- reference (from the statement)
 
 
-def ref_expand(table, line):
+def ref_expand(table, line, trace=None):
     """table: name -> kind tuple.  Returns (result list, decorator names) where a callable is
     represented as ('fn', name).  'Expand the leading word repeatedly until it is no longer an
     unexpanded alias; each alias at most once per chain; user args after alias args; decorator
@@ -83,6 +86,8 @@ def ref_expand(table, line):
         if kind[0] == "undef" or head in seen:
             return cur, decs
         seen.add(head)
+        if trace is not None:
+            trace.append(kind[0])
         if kind[0] in ("fn", "dec"):
             return [(kind[0], head)] + cur[1:], decs
         if kind[0] == "list":
@@ -95,6 +100,23 @@ def ref_expand(table, line):
             cur = [kind[1], "r"]
         else:  # pragma: no cover
             raise AssertionError(kind)
+
+
+def _expanded_user_words(table, line, obs, exp):
+    """True iff the observed result equals the expected one EXCEPT that the literal words the user typed
+    (`~`, `k=~`, `$XVC15`) came out path-/variable-expanded, and the chain went through a return_command
+    alias.  (One root cause: the command such an alias hands back - the user's arguments included - is
+    treated like the word list of a list alias and path-expanded again.)"""
+    from xonsh.built_ins import XSH
+
+    if not (isinstance(obs, tuple) and isinstance(obs[0], list) and isinstance(exp[0], list)) or obs[1] != exp[1]:
+        return False
+    tr = []
+    ref_expand(table, line, tr)
+    if "ret" not in tr and "retdrop" not in tr:
+        return False
+    m = {w: XSH.expand_path(w) for w in ("~", "k=~", "$XVC15")}
+    return obs[0] == [m.get(w, w) if isinstance(w, str) else w for w in exp[0]] and obs[0] != exp[0]
 
 
 def _is_dec(table, word):
@@ -249,9 +271,10 @@ def _check_table(kinds_tuple):
             exp = (exp_res, exp_decs)
             if obs != exp:
                 clause = "terminates" if got[0] != "ok" else ("order-independent" if first is not None and first == exp else "expansion")
+                rootcause = clause == "expansion" and _expanded_user_words(table, line, obs, exp)
                 viols.append(
                     common.Violation(
-                        key=f"get:{clause}:{common.short_hash([table, line])}",
+                        key="get:expansion:user-words-expanded-again-after-return_command" if rootcause else f"get:{clause}:{common.short_hash([table, line])}",
                         clause=clause,
                         case={"table": {k: list(v) for k, v in table.items()}, "order": list(order), "line": list(line), "seam": "Aliases.get"},
                         observed=repr(obs),
@@ -279,7 +302,7 @@ def _check_table(kinds_tuple):
                 if sobs != exp:
                     viols.append(
                         common.Violation(
-                            key=f"spec:{common.short_hash([table, line])}",
+                            key="spec:user-words-expanded-again-after-return_command" if _expanded_user_words(table, line, sobs, exp) else f"spec:{common.short_hash([table, line])}",
                             clause="SubprocSpec.build agrees with the reference expander",
                             case={"table": {k: list(v) for k, v in table.items()}, "order": list(order), "line": list(line), "seam": "SubprocSpec.build"},
                             observed=repr(sobs),
@@ -289,14 +312,14 @@ def _check_table(kinds_tuple):
                     break
         if exp_res is not None and len(exp_res) > len(stripped):
             nontrivial += 1
-    if viols:
+    if any("user-words-expanded-again-after-return_command" not in v.key for v in viols):
         _REFUTED[0] += 1
     return {"viols": [v.to_json() for v in viols], "evals": n_eval, "nontrivial": nontrivial, "skipped": 0}
 
 
 def _init_worker():
     d = common.scratch_dir("c15")
-    load_session(data_dir=d, path=[d])
+    load_session(data_dir=d, path=[d], env={"XVC15": "EXPANDED-BY-AN-ALIAS-HOP", "HOME": d})
 
 
 # ---------------------------------------------------------------- run-level recursion through exec aliases
